@@ -7,6 +7,9 @@ declare -A CHECKS=(
  [C09a]="C09" [C09b]="C09" [C10a]="C10" [C10b]="C10" [C11a]="C11" [C11b]="C11 C07" [C12a]="C12 C04" [C12b]="C12"
  [C13a]="C13" [C13b]="C13" [C14a]="C14" [C14b]="C14 C06" [C15a]="C15 C01" [C15b]="C15" [C16a]="C16" [C16b]="C16"
  [C17a]="C17" [C17b]="C17 C15" [C18a]="C18" [C18b]="C18"
+ [C01c]="C01" [C01d]="C01 C15" [C02c]="C02" [C02d]="C02 C15" [C03c]="C03" [C03d]="C03" [C04c]="C15 C04" [C04d]="C04"
+ [C09c]="C09" [C09d]="C09" [C10c]="C10 C04" [C10d]="C10" [C11c]="C11 C15" [C11d]="C11 C15" [C12c]="C12 C02" [C12d]="C12 C10"
+ [C13c]="C13" [C13d]="C13" [C14c]="C14" [C14d]="C14 C07" [C15c]="C15" [C15d]="C15" [C16c]="C16" [C16d]="C16"
 )
 for s in "$@"; do
   d=/verif/seeded/$s; mkdir -p $d
@@ -32,7 +35,7 @@ for c in checks:
         case = re.search(r'case: (.*)', body); what = re.search(r'what: (.*)', body)
         det[c] = {'exit': code, 'first_case': case.group(1)[:200] if case else '', 'what': what.group(1)[:240] if what else ''}
 readme = open(f'/verif/seeded/{s}/README.md').read() if __import__('os').path.exists(f'/verif/seeded/{s}/README.md') else ''
-meta = {'id': s, 'breaks_property': s[:3], 'source': 'independent sub-agent given only the property text and a scratch worktree of /repo',
+meta = {'id': s, 'breaks_property': s[:3], 'source': 'independent sub-agent given only the property text and a scratch worktree of /repo' + (' (second round: asked for cooperating sites, state leaks, rare arithmetic, feature interactions, interleavings; told which first-round changes to avoid)' if s[3] in 'cd' else ''),
         'confirmed': {'patch_applies_to_HEAD': True, 'existing_suite_passes_with_change': suite_ok, 'demo_passes_on_clean_tree': clean, 'demo_fails_with_change': demo_fails},
         'what_i_ran': 'tools/try_seed.sh (scratch worktree: go build ./..., go test -count=1 ./..., the demo with and without the change; then ./check.sh <ID> --tier quick with VERIF_REPO=<worktree>)',
         'checks_run': det,
